@@ -122,6 +122,52 @@ def consumption(api, data, Loader, short=0, deviate_at=None, limit_docs=None):
     return out, st, err
 
 
+def check_io_streams(T, api, be, Loader, block):
+    """the stream types applications actually pass: io.StringIO / io.BytesIO (consumption read off tell())"""
+    import io
+    for sizes in ((10, 10), (0, block + 1, 10), (10, (5 * block) // 2)):
+        for tail in (10, 30):
+            text, ends, _ = make_stream(sizes, tail, block)
+            for binary in (False, True):
+                T.evaluations += 1
+                case = {'sizes': list(sizes), 'api': api, 'backend': be, 'tail_blocks': tail, 'binary': binary, 'stream': 'io'}
+                st = io.BytesIO(text.encode('utf-8')) if binary else io.StringIO(text)
+                ndoc = 0
+                try:
+                    for x in FN[api](st, Loader=Loader):
+                        n = type(x).__name__
+                        em = getattr(x, 'end_mark', None)
+                        endidx = em.index if em is not None else (ends[ndoc] if ndoc < len(ends) else None)
+                        if api in ('compose_all', 'load_all') or n == 'DocumentEndEvent' or n == 'DocumentStartToken':
+                            ndoc += 1
+                        if endidx is None or ndoc > len(sizes):
+                            break
+                        used = st.tell()
+                        limit = endidx + 2 * block + SLACK
+                        if used > limit:
+                            T.violation('consumption', 'reads-too-far-ahead', case, detail='%s/%s on io.%s: %s ending at %d was yielded after tell()=%d (limit %d; stream has %d units)'
+                                        % (be, api, 'BytesIO' if binary else 'StringIO', n, endidx, used, limit, len(text)))
+                            break
+                except yaml.YAMLError as e:
+                    T.violation('consumption', 'valid-stream-rejected', case, detail='%s/%s raised %s' % (be, api, type(e).__name__))
+            # a reader-level error far beyond the good documents
+            bad = text + '--- a\x07b\n'
+            T.evaluations += 1
+            case = {'sizes': list(sizes), 'api': api, 'backend': be, 'tail_blocks': tail, 'stream': 'io', 'bad': 'reader'}
+            ndoc = 0
+            err = None
+            try:
+                for x in FN[api](io.StringIO(bad), Loader=Loader):
+                    n = type(x).__name__
+                    if api in ('compose_all', 'load_all') or n == 'DocumentEndEvent' or n == 'DocumentStartToken':
+                        ndoc += 1
+            except yaml.YAMLError as e:
+                err = type(e).__name__
+            if err != 'ReaderError' or ndoc < len(sizes):
+                T.violation('errors', 'documents-before-reader-error', case, detail='%s/%s on io.StringIO: non-printable character %d blocks beyond %d good documents; %d delivered before %s' % (be, api, tail, len(sizes), ndoc, err))
+    T.nontrivial += 1
+
+
 def units_upto(text, char_index, binary):
     return len(text[:char_index].encode('utf-8')) if binary else char_index
 
@@ -267,6 +313,8 @@ def check_abandon(T, api, be, Loader, block):
                     disposed.append(1)
                     Loader.dispose(self)
             st = RecStream(text.encode('utf-8') if binary else text)
+            gc_was = gc.isenabled()
+            gc.disable()           # "releases the loader": by reference counting, not whenever the cycle collector happens to run
             g = FN[api](st, Loader=L)
             n = {'close-after-1': 1, 'drop-after-1': 1, 'close-unstarted': 0, 'drop-unstarted': 0, 'close-after-error-free-3': 3}[mode]
             for _ in range(n):
@@ -275,6 +323,9 @@ def check_abandon(T, api, be, Loader, block):
             if mode.startswith('close'):
                 g.close()
             del g
+            alive_now = any(r() is not None for r in refs)
+            if gc_was:
+                gc.enable()
             gc.collect()
             started = n > 0
             if api in ('scan', 'parse', 'compose_all', 'load_all') and started:
@@ -289,6 +340,8 @@ def check_abandon(T, api, be, Loader, block):
                 T.violation('abandon', 'read-after-abandon', case, detail='%s/%s %s: %d further read() calls after the iteration was abandoned' % (be, api, mode, st.calls - calls))
             if any(r() is not None for r in refs):
                 T.violation('abandon', 'loader-still-reachable', case, detail='%s/%s %s: the loader object is still alive after the generator was abandoned and collected' % (be, api, mode))
+            elif alive_now:
+                T.violation('abandon', 'loader-kept-alive-by-a-cycle', case, detail='%s/%s %s: after the generator was abandoned the loader is only freed by the cycle collector (dispose() left a reference cycle)' % (be, api, mode))
             del L
     T.nontrivial += 1
 
@@ -313,6 +366,7 @@ def plan(tier, seed):
         for api in APIS:
             jobs.append(('abandon', be, api))
             jobs.append(('readerbad', be, api))
+            jobs.append(('iostreams', be, api))
             for b in range(len(BADS)):
                 jobs.append(('bad', be, api, b, 2))
             nsv = 7
@@ -333,6 +387,9 @@ def run_job(job, T):
     if kind == 'abandon':
         check_abandon(T, api, be, Loader, block)
         T.sample('abandon', {'api': api, 'backend': be})
+    elif kind == 'iostreams':
+        check_io_streams(T, api, be, Loader, block)
+        T.sample('consumption', {'api': api, 'backend': be, 'stream': 'io.StringIO / io.BytesIO'})
     elif kind == 'readerbad':
         check_reader_bad(T, api, be, Loader, block)
         T.sample('errors', {'api': api, 'backend': be, 'bad': 'reader'})
@@ -376,7 +433,9 @@ def replay(sub, case, T):
     Loader = dict(BACKENDS)[be]
     block = block_of(be, Loader)
     api = case['api']
-    if sub == 'abandon':
+    if case.get('stream') == 'io':
+        check_io_streams(T, api, be, Loader, block)
+    elif sub == 'abandon':
         check_abandon(T, api, be, Loader, block)
     elif sub == 'errors':
         if str(case.get('bad', '')).startswith('reader'):
